@@ -509,6 +509,7 @@ class DedupingMemoryAppend(Contract):
   empty / the key present with n rewards / only another key present), the
   rewards and the new reward symbolic."""
   prop = 'C15'
+  bounded = True       # stated bound: five concrete cache shapes (<= 2 keys, <= 3 rewards per key)
   target = f'{DD}:Deduping._add_dna_to_cache'
   raises = {Exception: ()}
   variants = ('empty', 'key-present-1', 'key-present-3', 'other-key-only', 'both')
